@@ -3,7 +3,9 @@
    kernel answers to successive read() / write() calls).  Core Lean only.
 
    token := caps [ "@" skip ]        caps := cap { "," cap }        cap := <nat> | "e"
-   The caps are used cyclically, one per call: 0 = no cap, e = the call fails. -/
+   The caps are used cyclically, one per call: 0 = no cap, e = the call fails.
+   (C06 read plans only) i = the call is interrupted (-1/EINTR, nothing transferred): substdio's `oneread` repeats the call,
+   so for the model of what the kernel *delivers* the entry does not exist - it is dropped from the script. -/
 import Drv.Util
 import Nq.Substdio
 import Std.Data.HashMap
@@ -18,10 +20,10 @@ structure Plan where
 
 def parseCaps (s : String) : Option (Array (Option Nat)) :=
   let toks := (s.splitOn ",").filter (· ≠ "")
-  if toks.isEmpty then none else
+  if toks.isEmpty || toks.all (· == "i") then none else
   toks.foldl (fun acc t => match acc with
     | none => none
-    | some a => if t == "e" then some (a.push none) else match t.toNat? with
+    | some a => if t == "e" then some (a.push none) else if t == "i" then some a else match t.toNat? with
         | some n => some (a.push (some n))
         | none => none) (some #[])
 
@@ -34,6 +36,9 @@ def parsePlan (tok : String) : Option Plan :=
   | _ => none
 
 def Plan.hasFail (p : Plan) : Bool := p.caps.any (· == none)
+
+/-- 0-based index of the first failing call of the plan (the caps are used cyclically from call 0) -/
+def Plan.firstFail (p : Plan) : Option Nat := p.caps.findIdx? (· == none)
 
 /-- "no cap": larger than any request -/
 def BIG : Nat := 1073741824
